@@ -81,7 +81,9 @@ func createCron(node gen.Node) *cron {
 				// do nothing
 				c.node.Log().Debug(cronLogPrefix+"ignore job %s action time != now",
 					cj.job.Name)
-				return
+				// skip this job, but keep the scheduler going: the timer
+				// below must be re-armed and the next minute scheduled
+				continue
 			}
 
 			// DO the job
